@@ -18,22 +18,22 @@ import (
 // bijection with actual ids from what the router sends.
 
 type MSess struct {
-	Idx      int
-	ID       wamp.ID
-	Local    bool
-	Details  map[string]string // authid, authrole, custom attributes (string-valued session details)
-	Feat     map[string]bool   // "role.feature"
-	Alive    bool
-	InvSeen  map[wamp.ID]bool // actual invocation request ids used towards this callee
-	Testam   []mTestament
+	Idx     int
+	ID      wamp.ID
+	Local   bool
+	Details map[string]string // authid, authrole, custom attributes (string-valued session details)
+	Feat    map[string]bool   // "role.feature"
+	Alive   bool
+	InvSeen map[wamp.ID]bool // actual invocation request ids used towards this callee
+	Testam  []mTestament
 }
 
 type mTestament struct {
-	Topic  string
-	Args   wamp.List
-	Kw     wamp.Dict
-	Opts   wamp.Dict
-	Scope  string
+	Topic string
+	Args  wamp.List
+	Kw    wamp.Dict
+	Opts  wamp.Dict
+	Scope string
 }
 
 type MSub struct {
@@ -59,16 +59,17 @@ type mHistEntry struct {
 }
 
 type MReg struct {
-	Sym      int
-	Proc     string
-	Match    string
-	Invoke   string
-	Callees  []int
-	Disclose bool
-	FwdTO    bool
-	lastIdx  int  // index in Callees of the last round-robin choice, -1 unknown
-	changed  bool // membership changed since last call
-	Deleted  bool
+	Sym       int
+	Proc      string
+	Match     string
+	Invoke    string
+	Callees   []int
+	Disclose  bool
+	FwdTO     bool
+	lastIdx   int  // index in Callees of the last round-robin choice, -1 unknown
+	changed   bool // membership changed since last call
+	skipMaybe bool // a refused call may have consumed a round-robin turn
+	Deleted   bool
 }
 
 type MCall struct {
@@ -693,6 +694,10 @@ func (m *MRealm) pickCallees(reg *MReg) []int {
 		if reg.changed || reg.lastIdx < 0 {
 			return append([]int{}, reg.Callees...) // rotation restarts somewhere after a membership change
 		}
+		if reg.skipMaybe {
+			// a refused call may or may not have consumed a turn
+			return []int{reg.Callees[(reg.lastIdx+1)%n], reg.Callees[(reg.lastIdx+2)%n]}
+		}
 		return []int{reg.Callees[(reg.lastIdx+1)%n]}
 	}
 	return append([]int{}, reg.Callees...) // random (or anything else): any member
@@ -770,6 +775,9 @@ func (m *MRealm) Call(s int, req wamp.ID, opts wamp.Dict, proc string, args wamp
 		tos = append(tos, c.callee)
 	}
 	if refused {
+		for _, c := range cs {
+			m.noteRefused(c.reg)
+		}
 		return []Exp{{To: s, Text: errText(wamp.CALL, req, "wamp.error.option_disallowed.disclose_me")}}, nil
 	}
 	call.Cands = tos
@@ -807,7 +815,20 @@ func (m *MRealm) Call(s int, req wamp.ID, opts wamp.Dict, proc string, args wamp
 
 var callRegs = map[*MCall]func(int, int) *MReg{}
 
+// noteRefused: the rules do not say whether a call refused after the callee
+// was chosen counts as that callee's turn of a round-robin rotation.
+func (m *MRealm) noteRefused(reg *MReg) {
+	if reg.Invoke != "roundrobin" || len(reg.Callees) < 2 {
+		return
+	}
+	if reg.skipMaybe {
+		reg.changed = true // several in a row: position unknown
+	}
+	reg.skipMaybe = true
+}
+
 func (m *MRealm) noteRR(reg *MReg, callee int) {
+	reg.skipMaybe = false
 	for i, c := range reg.Callees {
 		if c == callee {
 			reg.lastIdx = i
@@ -820,6 +841,18 @@ func (m *MRealm) noteRR(reg *MReg, callee int) {
 func (m *MRealm) CallResolve(call *MCall, callee int, regSym int) {
 	if regSym == 0 && callee == call.Caller && !contains(call.Cands, callee) || regSym < 0 {
 		// the refusing registration was chosen: no call came into being
+		if f := callRegs[call]; f != nil {
+			for _, r := range m.Regs {
+				if r.Invoke == "roundrobin" && !r.Disclose {
+					for _, c := range r.Callees {
+						if f(c, r.Sym) == r {
+							m.noteRefused(r)
+							break
+						}
+					}
+				}
+			}
+		}
 		call.Done = true
 		delete(callRegs, call)
 		return
